@@ -1211,7 +1211,17 @@ impl Writer {
         no_longer_relevant.extend(pending_gaps);
       } else {
         // Reader not pending gap on unsent_sn. Get the cache change from topic cache
-        if let Some(cc) = self.history_buffer.get_by_sn(unsent_sn) {
+        if let Some(cc) = self
+          .history_buffer
+          .get_by_sn(unsent_sn)
+          // A sample written for some other single reader is not relevant to this
+          // reader (e.g. a late joiner, which has no pending GAP for it): answer with GAP.
+          .filter(|cc| {
+            cc.write_options
+              .to_single_reader()
+              .map_or(true, |single| single == reader_guid)
+          })
+        {
           // // DEBUG
           // if self.my_guid.entity_id == EntityId::SEDP_BUILTIN_PUBLICATIONS_WRITER
           //   && reader_proxy.remote_reader_guid.prefix != self.my_guid.prefix
